@@ -55,7 +55,10 @@ def valid_outcomes(expected: list[str], arrivals: list[tuple[str, int]]) -> set[
 
 # ------------------------------------------------------------------------------ the program
 def execute(ex: Execution, expected: list[str], arrivals: list[tuple[str, int]], w: int,
-            valid: set[Any], fail_once: bool = False, wait_after: bool = False, fail_first: bool = False) -> tuple[Any, list[Any]]:
+            valid: set[Any], fail_once: bool = False, wait_after: bool = False, fail_first: bool = False,
+            fault_when_none: tuple[str, str] | None = None) -> tuple[Any, list[Any]]:
+    """``fault_when_none`` = (label, "fail" | "wait"): the invocation for that input, on its first attempt, calls
+    collect_events, gets None, and then fails with a retryable error / suspends in wait_for_event (it does not complete)"""
     cfg = RunConfig()
     with EngineExec(ex, cfg) as e:
         h = e.h
@@ -74,8 +77,9 @@ def execute(ex: Execution, expected: list[str], arrivals: list[tuple[str, int]],
 
                         e.add_script([Action(f"answer {wt.waiter_id}", (lambda k=wt.waiter_id: hd.ctx.send_event(Resp(uid=900, key=k))))])
 
-        if wait_after:
+        if wait_after or (fault_when_none and fault_when_none[1] == "wait"):
             cfg.on_quiescent.append(answer_waiters)
+        faulted: set[str] = set()
         returned: list[tuple[int, ...]] = []
         completion_order: list[tuple[str, int]] = []
         exp_types = [TYPES[t] for t in expected]
@@ -102,6 +106,15 @@ def execute(ex: Execution, expected: list[str], arrivals: list[tuple[str, int]],
             if fail_first and inv.retry.retry_number == 0:
                 raise RuntimeError("the first attempt of every input fails before it collects; the retry collects")
             r = ctx.collect_events(ev, exp_types)
+            lab = label_of.get(id(ev), "?")
+            if r is None and fault_when_none and fault_when_none[0] == lab and lab not in faulted:
+                faulted.add(lab)
+                if fault_when_none[1] == "fail":
+                    raise RuntimeError("fails after collect_events gave None; the retry collects again")
+                from vmc.events import Resp
+
+                await ctx.wait_for_event(Resp, waiter_id="wn:" + lab, requirements={"key": "wn:" + lab}, timeout=None)
+                r = ctx.collect_events(ev, exp_types)  # (the re-entered body collects again)
             if r is not None and wait_after:
                 # the step that holds a full set suspends before it finishes (e.g. asks a human to confirm)
                 from vmc.events import Resp
@@ -118,13 +131,15 @@ def execute(ex: Execution, expected: list[str], arrivals: list[tuple[str, int]],
         cls = make_workflow("Collect", [
             make_step("start", [StartEvent], [TYPES[t] for t in acc] + [None], start),
             make_step("coll", [TYPES[t] for t in acc], [StopEvent, None], coll, num_workers=w,
-                      retry_policy=(retry_policy(wait=wait_fixed(0), stop=stop_after_attempt(3)) if (fail_once or fail_first) else None))])
+                      retry_policy=(retry_policy(wait=wait_fixed(0), stop=stop_after_attempt(3)) if (fail_once or fail_first or fault_when_none) else None))])
         wf = cls(timeout=None, runtime=MonRuntime(BasicRuntime()))
         hd = wf.run(run_id="r1")
         e.consume_stream(hd)
         e.drive()  # ends when nothing is enabled any more (the run idles: there is no StopEvent)
         v: list[Any] = []
         wit = {"expected": "".join(expected), "workers": ("1" if w == 1 else ">1")}
+        if fault_when_none:
+            wit["after_collect_gave_none"] = fault_when_none[1]
         if wait_after:
             wit["waits_after_collecting"] = True
             wit["arrivals_beyond_one_set"] = len(arrivals) > len(expected)
@@ -229,6 +244,17 @@ def programs(tier: str) -> list[Program]:
         ps.append(Program(f"collect_fail_once(AB;w={w})", {"expected": expected, "arrivals": arrivals, "w": w, "fail_once": True},
                           (lambda ex, expected=expected, arrivals=arrivals, w=w, valid=valid_outcomes(expected, arrivals):
                            execute(ex, expected, arrivals, w, valid, fail_once=True))))
+    # an invocation that got None from collect_events does not complete: it fails (and is retried) or suspends in a wait
+    for how in ("fail", "wait"):
+        for expected, arrivals, lab in ((["A", "B"], [("A", 1), ("B", 1)], "B1"), (["A", "B"], [("A", 1), ("B", 1)], "A1"),
+                                        (["A", "A", "B"], [("A", 1), ("A", 2), ("B", 1)], "A2")):
+            for w in ((2,) if q else (2, 3)):
+                if w > len(arrivals):
+                    continue
+                ps.append(Program(f"collect_none_then_{how}({''.join(expected)};{''.join(t + str(u) for t, u in arrivals)};{lab};w={w})",
+                                  {"expected": expected, "arrivals": arrivals, "w": w, "fault_when_none": [lab, how]},
+                                  (lambda ex, expected=expected, arrivals=arrivals, w=w, lab=lab, how=how, valid=valid_outcomes(expected, arrivals):
+                                   execute(ex, expected, arrivals, w, valid, fault_when_none=(lab, how))), max_dev=(4 if q else 6)))
     return ps
 
 
